@@ -683,6 +683,15 @@ package main
 //@   revent gdId: result
 //@   modifies Header.value, W
 //@   ensures values-frame: forall h *Header :: (firstIdx(m.headers, "From") < 0 || h != m.headers[firstIdx(m.headers, "From")]) && (firstIdx(m.headers, "To") < 0 || h != m.headers[firstIdx(m.headers, "To")]) ==> h.value == old(h.value)
+//@   ensures needs-call-id: firstIdx(m.headers, "Call-ID") < 0 ==> err != nil
+//@   ensures needs-from-tag: err == nil ==> isType(m.headers[firstIdx(m.headers, "From")].value, "*FromSpec") && kvHas(asRef(m.headers[firstIdx(m.headers, "From")].value, "*FromSpec").params, "tag")
+//@   ensures needs-to-tag: err == nil ==> isType(m.headers[firstIdx(m.headers, "To")].value, "*To") && kvHas(asRef(m.headers[firstIdx(m.headers, "To")].value, "*To").params, "tag")
+//@   ensures id-name-addr-sip: err == nil && asRef(m.headers[firstIdx(m.headers, "From")].value, "*FromSpec").nameAddr != nil && asRef(m.headers[firstIdx(m.headers, "From")].value, "*FromSpec").nameAddr.Addr.sipURI != nil && asRef(m.headers[firstIdx(m.headers, "To")].value, "*To").nameAddr != nil && asRef(m.headers[firstIdx(m.headers, "To")].value, "*To").nameAddr.Addr.sipURI != nil ==>
+//@        result == dialogIdOf(asStr(m.headers[firstIdx(m.headers, "Call-ID")].value), kvGet(asRef(m.headers[firstIdx(m.headers, "From")].value, "*FromSpec").params, "tag"), sipBase(asRef(m.headers[firstIdx(m.headers, "From")].value, "*FromSpec").nameAddr.Addr.sipURI), kvGet(asRef(m.headers[firstIdx(m.headers, "To")].value, "*To").params, "tag"), sipBase(asRef(m.headers[firstIdx(m.headers, "To")].value, "*To").nameAddr.Addr.sipURI))
+//@   ensures id-bare-sip: err == nil && asRef(m.headers[firstIdx(m.headers, "From")].value, "*FromSpec").nameAddr == nil && asRef(m.headers[firstIdx(m.headers, "From")].value, "*FromSpec").addrSpec != nil && asRef(m.headers[firstIdx(m.headers, "From")].value, "*FromSpec").addrSpec.sipURI != nil && asRef(m.headers[firstIdx(m.headers, "To")].value, "*To").nameAddr == nil && asRef(m.headers[firstIdx(m.headers, "To")].value, "*To").addrSpec != nil && asRef(m.headers[firstIdx(m.headers, "To")].value, "*To").addrSpec.sipURI != nil ==>
+//@        result == dialogIdOf(asStr(m.headers[firstIdx(m.headers, "Call-ID")].value), kvGet(asRef(m.headers[firstIdx(m.headers, "From")].value, "*FromSpec").params, "tag"), sipBase(asRef(m.headers[firstIdx(m.headers, "From")].value, "*FromSpec").addrSpec.sipURI), kvGet(asRef(m.headers[firstIdx(m.headers, "To")].value, "*To").params, "tag"), sipBase(asRef(m.headers[firstIdx(m.headers, "To")].value, "*To").addrSpec.sipURI))
+//@   ensures id-name-addr-absolute: err == nil && asRef(m.headers[firstIdx(m.headers, "From")].value, "*FromSpec").nameAddr != nil && asRef(m.headers[firstIdx(m.headers, "From")].value, "*FromSpec").nameAddr.Addr.sipURI == nil && asRef(m.headers[firstIdx(m.headers, "From")].value, "*FromSpec").nameAddr.Addr.absoluteURI != nil && asRef(m.headers[firstIdx(m.headers, "To")].value, "*To").nameAddr != nil && asRef(m.headers[firstIdx(m.headers, "To")].value, "*To").nameAddr.Addr.sipURI == nil && asRef(m.headers[firstIdx(m.headers, "To")].value, "*To").nameAddr.Addr.absoluteURI != nil ==>
+//@        result == dialogIdOf(asStr(m.headers[firstIdx(m.headers, "Call-ID")].value), kvGet(asRef(m.headers[firstIdx(m.headers, "From")].value, "*FromSpec").params, "tag"), asRef(m.headers[firstIdx(m.headers, "From")].value, "*FromSpec").nameAddr.Addr.absoluteURI.absURI, kvGet(asRef(m.headers[firstIdx(m.headers, "To")].value, "*To").params, "tag"), asRef(m.headers[firstIdx(m.headers, "To")].value, "*To").nameAddr.Addr.absoluteURI.absURI)
 
 // (request-side helpers: summarised here by their static mod sets; their own contracts are given where claimed)
 
@@ -1099,3 +1108,38 @@ package main
 //@   props C13
 //@   ensures from-config: s != "" ==> result == isTruthy(s)
 //@   ensures from-env: s == "" ==> result == isTruthy(envValue("KEEP_NEXT_HOP_ROUTE"))
+
+// ---- dialog identity (C16) ----
+
+//@ func (*FromSpec).GetParam
+//@   props C16
+//@   modifies nothing
+//@   ensures found: kvHas(fs.params, name) ==> err == nil && result == kvGet(fs.params, name)
+//@   ensures notfound: !kvHas(fs.params, name) ==> err != nil
+//@   loop 0:
+//@     invariant 0 <= $i && $i <= len(fs.params)
+//@     invariant forall j int :: 0 <= j && j < $i ==> fs.params[j].Key != name
+
+//@ func (*To).GetParam
+//@   props C16
+//@   modifies nothing
+//@   ensures found: kvHas(t.params, name) ==> err == nil && result == kvGet(t.params, name)
+//@   ensures notfound: !kvHas(t.params, name) ==> err != nil
+//@   loop 0:
+//@     invariant 0 <= $i && $i <= len(t.params)
+//@     invariant forall j int :: 0 <= j && j < $i ==> t.params[j].Key != name
+
+//@ func (*SIPURI).ToString
+//@   props C16
+//@   modifies W
+//@   ensures bare: !withParams && !withHeaders ==> result == sipBase(s)
+
+//@ func (*SIPURI)._Write
+//@   props C16 C14
+//@   modifies W
+//@   ensures only-this-writer: forall w int :: w != refOf(writer) ==> W[w] == old(W[w])
+//@   ensures bare: !withParams && !withHeaders && isType(writer, "*bytes.Buffer") ==> W[refOf(writer)] == old(W[refOf(writer)]) + sipBase(s)
+//@   loop 0:
+//@     invariant forall w int :: w != refOf(writer) ==> W[w] == old(W[w])
+//@   loop 1:
+//@     invariant forall w int :: w != refOf(writer) ==> W[w] == old(W[w])
